@@ -537,7 +537,17 @@ func expandRequestData(testCase *conformancev1.TestCase) error {
 				padding := make([]byte, delta)
 				bytesVal = append(bytesVal, padding...)
 			} else {
-				bytesVal = bytesVal[:len(bytesVal)+int(delta)]
+				newLen := int64(len(bytesVal)) + delta
+				if newLen < 0 {
+					if len(bytesVal) == 0 {
+						return fmt.Errorf("request message #%d: can't shrink to %d bytes; message is %d bytes even with no request data",
+							i+1, totalSize, size)
+					}
+					// Removing all of the data also removes the field's tag and
+					// length prefix, so see where that gets us.
+					newLen = 0
+				}
+				bytesVal = bytesVal[:newLen]
 			}
 			reflectReq.Set(field, protoreflect.ValueOfBytes(bytesVal))
 			adjustCount++
